@@ -12,6 +12,7 @@ def pOp : P Op := do
     pure (.notify cs)
   | "d" => do let id ← P.nat; let n ← P.nat; pure (.drain id n)
   | "e" => pure .endWatch
+  | "f" => pure .endWatch      -- the source ended with an error: watching ends all the same
   | "x" => pure (.notify [])   -- the Watch context is cancelled, the source goes on: no effect until it ends
   | _ => failure
 
